@@ -23,8 +23,8 @@ ASSUMPTIONS = [
 
 
 def plan(tier, seed):
-    nv = 200 if tier == "quick" else 4000
-    nf = 60 if tier == "quick" else 1200
+    nv = 700 if tier == "quick" else 10000
+    nf = 250 if tier == "quick" else 3500
     shards = [{"name": "valid-%d" % p, "kind": "valid", "n": nv} for p in range(8)]
     shards += [{"name": "faults-%d" % p, "kind": "faults", "n": nf} for p in range(8)]
     return shards
